@@ -25,6 +25,7 @@ from .state import State, Env, OutOfSubset, BindingLost
 from .source import key_of_function, class_key, live_module
 from .engine import DeadPath, SpecFn, Outcome, FuncCtx, exc_class
 from . import floats
+from . import quant as Q
 
 TD_MAX_SECONDS = 86400 * 999999999
 
@@ -530,30 +531,36 @@ class CallsMixin:
         return None
 
     def quantify_gen(self, g: GenExp, st):
-        """For a symbolic-length list: (k, lo<=k<hi cond, if-cond, element) with k fresh."""
+        """For a generator over a symbolic-length list: (n, body) where body(k) evaluates the
+        `if` conditions and the element expression for index k and returns (cond, elt Val)."""
         elt, target, it, ifs = self.gen_parts(g)
-        sub = st.sub({}, g.env)
-        itv = self.eval(it, sub)
+        sub0 = st.sub({}, g.env)
+        itv = self.eval(it, sub0)
         if not isinstance(itv.shape, SeqS):
             raise OutOfSubset(f"generator over {itv.shape}")
-        k = z3.Int(V.fresh_name("gk"))
-        rng = z3.And(k >= 0, k < itv.d[1])
-        sub.pc = sub.pc + [rng]
-        n_side = len(self.side)
-        item = V.seq_select(itv, k)
-        sub.assume(V.wf(item))
-        self.bind_target(target, item, sub)
-        conds = [self.truth(self.eval(c, sub), sub) for c in ifs]
-        c = (z3.And(conds) if len(conds) > 1 else conds[0]) if conds else z3.BoolVal(True)
-        sub.guards.append(c)
-        e = self.eval(elt, sub)
-        sub.guards.pop()
-        if len(self.side) > n_side:
-            del self.side[n_side:]
-            raise OutOfSubset("possible exception inside a generator over a symbolic list")
-        # facts assumed while evaluating under the binder (callee postconditions) are dropped:
-        # sound (fewer assumptions)
-        return k, rng, c, e, itv
+
+        def body(k):
+            sub = st.sub({}, g.env)
+            rng = z3.And(k >= 0, k < itv.d[1])
+            item = V.seq_select(itv, k)
+            sub.pc = sub.pc + [rng, V.wf(item)]
+            n_pc = len(sub.pc)
+            n_side = len(self.side)
+            self.bind_target(target, item, sub)
+            conds = [self.truth(self.eval(c, sub), sub) for c in ifs]
+            c = (z3.And(conds) if len(conds) > 1 else conds[0]) if conds else z3.BoolVal(True)
+            sub.guards.append(c)
+            e = self.eval(elt, sub)
+            sub.guards.pop()
+            if len(self.side) > n_side:
+                del self.side[n_side:]
+                raise OutOfSubset("possible exception inside a generator over a symbolic list")
+            if len(sub.pc) != n_pc:
+                # a callee's postcondition was assumed under the binder: its result would have
+                # to be a function of k
+                raise OutOfSubset("contract call inside a generator over a symbolic list")
+            return c, e
+        return itv.d[1], body
 
     def b_any(self, args, kwargs, st):
         return self._anyall(args, st, True)
@@ -574,11 +581,13 @@ class CallsMixin:
                     else:
                         cl.append(t if c is None else z3.Implies(c, t))
                 return V.vbool((z3.Or if is_any else z3.And)(cl or [z3.BoolVal(not is_any)]))
-            k, rng, c, e, _ = self.quantify_gen(v.d, st)
-            t = self.truth(self.as_sym(e), st)
-            if is_any:
-                return V.vbool(z3.Exists([k], z3.And(rng, c, t)))
-            return V.vbool(z3.ForAll([k], z3.Implies(z3.And(rng, c), t)))
+            n, body = self.quantify_gen(v.d, st)
+
+            def fk(k):
+                c, e = body(k)
+                t = self.truth(self.as_sym(e), st)
+                return z3.And(c, t) if is_any else z3.Implies(c, t)
+            return V.vbool((Q.exists if is_any else Q.forall)(self, z3.IntVal(0), n, fk, "gk"))
         items = self.static_items(self.as_sym(v))
         if items is None:
             raise OutOfSubset("any/all over symbolic list")
@@ -597,9 +606,12 @@ class CallsMixin:
                     x = self._int(self.as_sym(e))
                     tot = tot + (x if c is None else z3.If(c, x, 0))
                 return V.vint(tot)
-            k, rng, c, e, itv = self.quantify_gen(v.d, st)
-            x = self._int(self.as_sym(e))
-            return V.vint(self.sum_spec(k, itv.d[1], z3.If(c, x, 0)))
+            n, body = self.quantify_gen(v.d, st)
+
+            def term(k):
+                c, e = body(k)
+                return z3.If(c, self._int(self.as_sym(e)), 0)
+            return V.vint(self.sum_spec(n, term))
         items = self.static_items(self.as_sym(v))
         if items is None:
             raise OutOfSubset("sum over symbolic list")
@@ -608,14 +620,19 @@ class CallsMixin:
             tot = tot + self._int(e)
         return V.vint(tot)
 
-    def sum_spec(self, k, n, term):
-        """SUM_{k<n} term(k) as an axiomatised recursive function of n (term mentions k)."""
+    def sum_spec(self, n, term):
+        """SUM_{k<n} term(k) as an axiomatised recursive function of n."""
+        if self.finite is not None:
+            self.ctx.finite_assumptions.append(n <= self.finite + 1)
+            tot = z3.IntVal(0)
+            for i in range(0, self.finite + 1):
+                tot = tot + z3.If(i < n, term(z3.IntVal(i)), 0)
+            return tot
         f = z3.Function(V.fresh_name("SUM"), z3.IntSort(), z3.IntSort())
         j = z3.Int(V.fresh_name("sj"))
         self.ctx.axioms.append(f(0) == 0)
-        self.ctx.axioms.append(z3.ForAll([j], z3.Implies(j >= 0, f(j + 1) == f(j) + z3.substitute(term, (k, j))),
-                                         patterns=[f(j + 1)]))
-        self.ctx.sum_defs.append((f, k, term))
+        self.ctx.axioms.append(z3.ForAll([j], z3.Implies(j >= 0, f(j + 1) == f(j) + term(j)), patterns=[f(j + 1)]))
+        self.ctx.sum_defs.append((f, term))
         return f(n)
 
     def b_max(self, args, kwargs, st):
@@ -671,7 +688,6 @@ class CallsMixin:
         n = seq.d[1]
         self.raise_side(st, "ValueError", n <= 0)
         j = z3.Int(V.fresh_name("argmax"))
-        k = z3.Int(V.fresh_name("mk"))
 
         def keyof(i):
             e = V.seq_select(seq, i)
@@ -680,12 +696,12 @@ class CallsMixin:
             if not (isinstance(key.shape, ConcS) and isinstance(key.d, Closure)):
                 raise OutOfSubset("max key not a lambda")
             return self.as_sym(self.call_closure(key.d, [e], {}, st))
-        kj, kk = keyof(j), keyof(k)
+        kj = keyof(j)
         gt = ast.Gt() if is_max else ast.Lt()
         ge = ast.GtE() if is_max else ast.LtE()
         st.assume(z3.And(j >= 0, j < n))
-        st.assume(z3.ForAll([k], z3.Implies(z3.And(k >= 0, k < n), self.compare(ge, kj, kk, st))))
-        st.assume(z3.ForAll([k], z3.Implies(z3.And(k >= 0, k < j), self.compare(gt, kj, kk, st))))
+        st.assume(Q.forall(self, z3.IntVal(0), n, lambda k: self.compare(ge, kj, keyof(k), st), "mk"))
+        st.assume(Q.forall(self, z3.IntVal(0), j, lambda k: self.compare(gt, kj, keyof(k), st), "mk"))
         e = V.seq_select(seq, j)
         st.assume(V.wf(e))
         return e
@@ -938,7 +954,7 @@ class CallsMixin:
             self.ctx.oblige(f"L{self.cur_line}/call:{c.name}/{name}", st, goal, kind="call-pre")
         res = V.fresh(c.result, "r_" + c.key.split(":")[1].split(".")[-1]) if c.result is not None else VNONE
         if c.result is not None:
-            st.assume(V.wf(res))
+            st.assume(Q.deep_wf(self, res))
         env["result"] = res
         if c.defines:
             dv = self.spec_eval(c.defines, env, st, mod, c)
